@@ -1409,6 +1409,7 @@ def corr_r15_values(ctx, drv, quick):
             k = 1 + (case['seed'] % n)
             with B.Tap() as tap:
                 v, d = fn(a, k)
+            tap.add_implicit_argsort()
             names = [c[0] for c in tap.log]
             ok_args = names == ['eig', 'argsort'] and np.array_equal(tap.log[0][1][0], a) and np.array_equal(tap.log[1][1][0], tap.log[0][3][0].real)
             if not ok_args:
@@ -1500,6 +1501,8 @@ def corr_kernel_histories(ctx, drv, quick):
                     args[pair[1]] = bufs[pair[0]]
                 with B.Tap() as tap:
                     r = call(args, extra)
+                if entry in ('peig', 'leig'):
+                    tap.add_implicit_argsort()
                 names = [c[0] for c in tap.log]
                 case = {'entry': entry, 'seed': seed, 'call': k + 1, 'dims': dims, 'cplx': cplx, 'same-object': same_obj}
                 key = ('r16kern', entry, seed, k)
